@@ -244,8 +244,8 @@ fn tiny_family(out: &mut Vec<TCase>, aliases: &[&str], elems: &[&str], maps: &[&
 fn boundary_family(out: &mut Vec<TCase>, aliases: &[&str], thorough: bool, huff: bool) {
     let sigmas: &[u32] = if thorough { &[1, 2, 3, 4, 5, 16, 17, 64, 255, 256] } else { &[1, 2, 4, 5, 17, 256] };
     let runs: &[usize] = if thorough { &[1, 127, 128, 255, 256, 257, 2048, 4096, 8192] } else { &[128, 257, 2048, 4096] };
-    let dense = if thorough { 8193 } else { 1025 };
-    let symcap = if thorough { 12 } else { 6 };
+    let dense = if thorough { 8193 } else { 2049 };
+    let symcap = if thorough { 12 } else { 8 };
     let mut rot = 0usize;
     for &n in &boundary_lengths(thorough) {
         for &sigma in sigmas {
